@@ -83,8 +83,9 @@ Definition zero_PesExt : PesExt :=
 
 Definition parse_private_data (c : bool) : IM (list Z) :=
   if c then next_bytes 16 else iret [].
+(* pack_field_length(8) then pack_header() of that many bytes, which is skipped, not parsed *)
 Definition parse_pack_field (c : bool) : IM Z :=
-  if c then next_byte else iret 0.
+  if c then b <- next_byte ;; iskip b ;;; iret b else iret 0.
 (* program_packet_sequence_counter: marker(1) counter(7) marker(1) MPEG1_MPEG2_identifier(1) original_stuff_length(6) *)
 Definition parse_psc (c : bool) : IM (Z * Z * Z) :=
   if c then bs <- next_bytes_nocopy 2 ;; iret (bitsf bs 1 7, bitsf bs 9 1, bitsf bs 10 6) else iret (0, 0, 0).
